@@ -3,6 +3,16 @@
 REFLECT = "Go reflect / runtime semantics as specified in the model (DESIGN.md 3.4)"
 
 PROPS = {
+    "C06": {
+        "gens": [],
+        "lean": "Anko.Props.C06",
+        "streams": [{"name": "eq", "n_quick": 3000, "n_thorough": 3000}],
+        "trusted": ["FOps instance of the driver = Lean Float = IEEE binary64 = Go float64",
+                    "reflect.DeepEqual specialised to the value universe (maps compared by mutual inclusion = Go's rule for maps with unique keys)"],
+        "assumptions": ["FEqSymm: float == is symmetric; FEqLeGe: x == y iff x <= y and y <= x (IEEE-754 facts, explicit hypotheses of the theorems)",
+                        "strconv.ParseFloat outside the model's exact domain is answered `unsupported` and not compared",
+                        "error values and environments as operands of == are outside the model"],
+    },
     "C05": {
         "gens": ["Cache"],
         "lean": "Anko.Props.C05",
@@ -24,6 +34,18 @@ PROPS = {
 
 # Texts for MANIFEST.json (level_claimed.text, level_note, technique, design_ref)
 MANIFEST_TEXT = {
+    "C06": {
+        "text": "Machine-checked proofs (Lean 4) over the model of vm.equal + reflect.DeepEqual on the whole value universe (nil, bool, int64, "
+                "float64, strings, nested slices and maps, functions): == is symmetric for every pair (induction on DeepEqual fuel, under the "
+                "explicit IEEE hypothesis that float == is symmetric), != is its negation, `in` and switch use the same relation, same-type "
+                "primitives compare as Go ==, int vs float is exactly <= and >=, nil equals only nil, string vs number is the decimal-numeral "
+                "rule. Correspondence: all ordered pairs of a 101-value pool in all four syntactic uses through model and interpreter; "
+                "implementation-side algebraic oracle (a==b vs b==a, != vs !(==), in, switch, <= && >=).",
+        "note": "Trusted: Lean kernel; FEqSymm / FEqLeGe hypotheses about IEEE floats; the model mirrors vm.equal (validated by the "
+                "correspondence each run). Model follows the repaired equal (fix commit 41294bd).",
+        "technique": "Lean 4 proof (structural case analysis + fuel induction) + differential correspondence",
+        "design_ref": "DESIGN.md section 6 (C06)",
+    },
     "C05": {
         "text": "Machine-checked proofs (Lean 4) over an operator model mirrored from vmOperator.go/vmToX.go: for ALL int64 operand pairs "
                 "+ - * & | are the BitVec-64 (wrapping) operations, % is Go's truncated remainder with an error exactly for 0, shift counts "
